@@ -21,6 +21,7 @@ enum RS<'a, K, V> {
 }
 
 struct ChainOut {
+    inserts: u32,
     res: String,
     cur: Option<MEntry>,
     inserted: bool,
@@ -38,7 +39,7 @@ impl<K: KeyT, V: ValT> World<K, V> {
         let key = K::make(kv);
         let arg_kid = key.oid();
         let slot = &mut self.maps[mi];
-        let mut co_out = ChainOut { res: String::new(), cur: start, inserted: false, removed_old: 0, replace_with_none: false, wrong: Vec::new() };
+        let mut co_out = ChainOut { inserts: 0, res: String::new(), cur: start, inserted: false, removed_old: 0, replace_with_none: false, wrong: Vec::new() };
         let o = &mut co_out;
         let co = call(|| {
             let mut cur = start;
@@ -114,6 +115,7 @@ impl<K: KeyT, V: ValT> World<K, V> {
                                 }
                                 cur = Some(MEntry { kid: handle_kid, vid: r.oid(), p: want });
                                 o.inserted = true;
+                                o.inserts += 1;
                                 in_old_now = false;
                             }
                         }
@@ -140,6 +142,7 @@ impl<K: KeyT, V: ValT> World<K, V> {
                             None => {
                                 cur = Some(MEntry { kid: handle_kid, vid, p });
                                 o.inserted = true;
+                                o.inserts += 1;
                                 in_old_now = false;
                             }
                         }
@@ -349,6 +352,7 @@ impl<K: KeyT, V: ValT> World<K, V> {
                                 }
                                 cur = Some(MEntry { kid: handle_kid, vid, p });
                                 o.inserted = true;
+                                o.inserts += 1;
                                 in_old_now = false;
                                 ES::R(r)
                             }
@@ -393,6 +397,7 @@ impl<K: KeyT, V: ValT> World<K, V> {
                     acc.probe("entry-on-old-table-element");
                 }
                 let cost = if co_out.inserted { Cost::KeyAdding } else { Cost::Constant };
+                acc.out.multi_insert = co_out.inserts > 1;
                 self.post_map(acc, mi, before, stats, cost, co_out.inserted, co_out.removed_old, co_out.replace_with_none);
             }
             Err(pn) => self.handle_panic(acc, pn, &[]),
@@ -408,7 +413,7 @@ impl<K: KeyT, V: ValT> World<K, V> {
         let slot = &mut self.maps[mi];
         let hs = *slot.m.hasher();
         let hash = hs.hash_kv_of(&probe);
-        let mut co_out = ChainOut { res: String::new(), cur: start, inserted: false, removed_old: 0, replace_with_none: false, wrong: Vec::new() };
+        let mut co_out = ChainOut { inserts: 0, res: String::new(), cur: start, inserted: false, removed_old: 0, replace_with_none: false, wrong: Vec::new() };
         let o = &mut co_out;
         let co = call(|| {
             let mut cur = start;
@@ -450,6 +455,7 @@ impl<K: KeyT, V: ValT> World<K, V> {
                             None => {
                                 cur = Some(MEntry { kid: nkid, vid: nvid, p });
                                 o.inserted = true;
+                                o.inserts += 1;
                                 in_old_now = false;
                             }
                         }
@@ -494,6 +500,7 @@ impl<K: KeyT, V: ValT> World<K, V> {
                                 }
                                 cur = Some(MEntry { kid: nkid, vid: nvid, p });
                                 o.inserted = true;
+                                o.inserts += 1;
                                 in_old_now = false;
                             }
                         }
@@ -722,6 +729,7 @@ impl<K: KeyT, V: ValT> World<K, V> {
                             }
                             cur = Some(MEntry { kid: nkid, vid: nvid, p });
                             o.inserted = true;
+                                o.inserts += 1;
                             in_old_now = false;
                             RS::R(rk, rv)
                         }
@@ -763,6 +771,7 @@ impl<K: KeyT, V: ValT> World<K, V> {
                     acc.probe("raw-entry-on-old-table-element");
                 }
                 let cost = if co_out.inserted { Cost::KeyAdding } else { Cost::Constant };
+                acc.out.multi_insert = co_out.inserts > 1;
                 self.post_map(acc, mi, before, stats, cost, co_out.inserted, co_out.removed_old, co_out.replace_with_none);
             }
             Err(pn) => self.handle_panic(acc, pn, &[]),
